@@ -54,6 +54,10 @@ func extractResolve(f *ast.File) (order []string, enter []string) {
 		return true
 	})
 	sort.Strings(enter)
+	// (a guard that rejects the keyword fallthrough with a compile error may stand before the chain: it resolves nothing)
+	if nameClause != nil && len(nameClause.Body) == 3 && squash(src(nameClause.Body[1])) == `iftok.Text=="fallthrough"{panicf("fallthroughisnotsupported")}` {
+		nameClause.Body = []ast.Stmt{nameClause.Body[0], nameClause.Body[2]}
+	}
 	if nameClause == nil || len(nameClause.Body) != 2 {
 		bad(fd, `compile: case "(name)" shape`)
 		return []string{"unknown"}, enter
